@@ -74,6 +74,12 @@ func c01Alphabet(c *Cast) func(w *World) []Event {
 				}
 				return nil
 			}),
+			ev1("Submit(RV2,cyc,7)", "submit/third", func(w *World) sdkMsg {
+				if q := w.CycleQuery(); q != nil {
+					return MsgSubmit(c.RV2.Acc, q, U256(7))
+				}
+				return nil
+			}),
 			ev1("Submit(R1,modeq2,std)", "submit-mode/std", func(w *World) sdkMsg { return MsgSubmit(c.R1.Acc, c.ModeQ2, U256(100)) }),
 		)
 		return evs
